@@ -151,9 +151,10 @@ type ghost struct {
 }
 
 type hit struct {
-	What  string `json:"what"`
-	Chain []Hdr  `json:"chain"`
+	What  string  `json:"what"`
+	Chain []Hdr   `json:"chain"`
 	Tbl   []Proto `json:"tbl"`
+	Batch *BCase  `json:"batch,omitempty"`
 }
 
 // oracle: the property stated over accepted links of a chain that started
@@ -288,6 +289,9 @@ func loadCorpus(dir string) []Case {
 		if err != nil {
 			continue
 		}
+		if strings.HasPrefix(filepath.Base(f), "batch_") {
+			continue
+		}
 		var c Case
 		if json.Unmarshal(b, &c) == nil {
 			c.Comment = "corpus:" + filepath.Base(f)
@@ -297,10 +301,37 @@ func loadCorpus(dir string) []Case {
 	return out
 }
 
+func loadBatchCorpus(dir string) []BCase {
+	var out []BCase
+	files, _ := filepath.Glob(filepath.Join(dir, "batch_*.json"))
+	sort.Strings(files)
+	for _, f := range files {
+		b, err := ioutil.ReadFile(f)
+		if err != nil {
+			continue
+		}
+		var c BCase
+		if json.Unmarshal(b, &c) == nil && len(c.Chain) > 0 {
+			c.Comment = "corpus:" + filepath.Base(f)
+			out = append(out, c)
+		}
+	}
+	return out
+}
+
 func gen(seed uint64, n int, outDir, corpusDir string) {
+	initChain()
 	r := vf.NewRng(seed)
 	res := vf.NewResult("C12", seed)
 	var cases []Case
+	var bcases []BCase
+	maxBatches := n / 5
+	for _, bc := range loadBatchCorpus(corpusDir) {
+		if observeBatch(&bc) {
+			bcases = append(bcases, bc)
+			res.Count("batch_corpus")
+		}
+	}
 	distinct := map[string]bool{}
 	add := func(c Case) {
 		cases = append(cases, c)
@@ -385,18 +416,27 @@ func gen(seed uint64, n int, outDir, corpusDir string) {
 			}
 			// oracle: honest successor must verify
 			if guard && c.ProcOk && !adversarial && c.Curr == honest && c.Verify != 0 {
-				res.OracleHits = append(res.OracleHits, hit{"honestly derived header rejected by the verifier", append(append([]Hdr{}, chain...), c.Curr), tbl})
+				res.OracleHits = append(res.OracleHits, hit{What: "honestly derived header rejected by the verifier", Chain: append(append([]Hdr{}, chain...), c.Curr), Tbl: tbl})
 			}
 			if c.Verify == 0 && c.Curr.Num == prev.Num+1 {
 				if guard {
 					if what := g.step(tbl, prev, c.Curr); what != "" {
-						res.OracleHits = append(res.OracleHits, hit{what, append(append([]Hdr{}, chain...), c.Curr), tbl})
+						res.OracleHits = append(res.OracleHits, hit{What: what, Chain: append(append([]Hdr{}, chain...), c.Curr), Tbl: tbl})
 						guard = false
 					}
 				}
 				prev = c.Curr
 				chain = append(chain, prev)
 			}
+		}
+		if len(bcases) < maxBatches {
+			bcases = append(bcases, genBatches(r, res, tbl, chain, minInt(2+len(chain)/8, maxBatches-len(bcases)))...)
+		}
+	}
+	for i := range bcases {
+		if what := batchWhat(&bcases[i]); what != "" {
+			b := bcases[i]
+			res.OracleHits = append(res.OracleHits, hit{What: what, Tbl: b.Tbl, Batch: &b})
 		}
 	}
 	var sb strings.Builder
@@ -407,11 +447,23 @@ func gen(seed uint64, n int, outDir, corpusDir string) {
 		}
 		sb.WriteString(caseCoq(c))
 	}
-	sb.WriteString("].\nDefinition M := Eval vm_compute in mismatches cases.\nPrint M.\n")
+	sb.WriteString("].\nDefinition bcases : list bcase := [\n")
+	nb := 0
+	for _, c := range bcases {
+		for _, which := range []int{c.Blocks, c.Headers} {
+			if nb > 0 {
+				sb.WriteString(";\n")
+			}
+			sb.WriteString(bcaseCoq(c, which))
+			nb++
+		}
+	}
+	sb.WriteString("].\nDefinition M := Eval vm_compute in (mismatches cases ++ bmismatches_from (N.of_nat (length cases)) bcases).\nPrint M.\n")
+	res.Extra["batch_cases"] = len(bcases)
 	vf.WriteFile(filepath.Join(outDir, "Cases.v"), sb.String())
 	res.Cases = len(cases)
 	res.Distinct = len(distinct)
-	res.Rule = "random scaled-down parameter tables (10% outside the guard); header chains walked from a clean start, each successor either the builder's own header or a mutation of 1-5 of its version fields to boundary values (round, window end, switch round, threshold, +-1); a case is one (table, prev, curr) pair with the implementation's verify verdict and process result; non-trivial = carries a proposal or a version change; distinct by full input"
+	res.Rule = "random scaled-down parameter tables (10% outside the guard); header chains walked from a clean start, each successor either the builder's own header or a mutation of 1-5 of its version fields to boundary values (round, window end, switch round, threshold, +-1); a case is one (table, prev, curr) pair with the implementation's verify verdict and process result; batch cases (about a fifth as many) take a segment of a walked chain as the batch for the two chain-level wrappers on a real BlockChain, with a random-length prefix stored as already known canonical blocks and, in 60%, one element (preferably the first unknown one) replaced by a mutation or by the version fields of the header below the batch; non-trivial = carries a proposal or a version change; distinct by full input"
 	for i, c := range cases {
 		res.CaseDescs = append(res.CaseDescs, c)
 		if i < 3 || (len(res.Samples) < 6 && c.Verify == 0 && c.Curr.Cur != c.Prev.Cur) {
@@ -458,10 +510,26 @@ func replay(file string) {
 		Case  *Case `json:"case"`
 		Chain []Hdr `json:"chain"`
 		Tbl   []Proto `json:"tbl"`
+		Batch *BCase  `json:"batch"`
 	}
 	if err := json.Unmarshal(b, &rp); err != nil {
 		fmt.Println(err)
 		os.Exit(2)
+	}
+	if rp.Batch != nil {
+		initChain()
+		c := *rp.Batch
+		if !observeBatch(&c) {
+			fmt.Println("batch not executable (Crit path)")
+			os.Exit(2)
+		}
+		fmt.Printf("batch of %d (known prefix %d): blocks=%d headers=%d link-by-link=%d\n", len(c.Chain), c.Known, c.Blocks, c.Headers, c.Expect)
+		if what := batchWhat(&c); what != "" {
+			fmt.Println("ORACLE VIOLATION:", what)
+			os.Exit(1)
+		}
+		fmt.Println("property holds on this input")
+		return
 	}
 	if rp.Case != nil {
 		c := *rp.Case
